@@ -228,7 +228,20 @@ def actset_vectors(ctx):
     for n in range(1, 13):
         for _ in range(per):
             hi = ctx.rng.choice([1, 2, 4, 8])
-            yield np.array([ctx.rng.randint(0, hi) for _ in range(n)], dtype=float), "ties"
+            v = np.array([ctx.rng.randint(0, hi) for _ in range(n)], dtype=float)
+            # magnitude and spread of the data must not matter: only "all values equal" (exactly) switches the band off
+            tr = ctx.rng.choice(["id", "id", "tiny", "tiny10", "close", "close7", "offset"])
+            if tr == "tiny":
+                v = v * 2.0 ** -40          # exact scaling: same ratios
+            elif tr == "tiny10":
+                v = (v + 1.0) * 1e-10
+            elif tr == "close":
+                v = 1.0 + v * 2.0 ** -24    # relative spread ~1e-7, every value exactly representable
+            elif tr == "close7":
+                v = 1.0 + v * 1e-7
+            elif tr == "offset":
+                v = 2.0 ** 30 + v
+            yield v, "ties" if tr == "id" else "ties." + tr
     nlong = 25 if ctx.quick else 400
     for t in range(nlong):
         n = ctx.rng.randint(13, 60 if ctx.quick else 250)
